@@ -8,6 +8,7 @@ import (
 	"vh/bed"
 	"vh/core"
 	"vh/crdt"
+	"vh/fakemongo"
 )
 
 func init() {
@@ -15,7 +16,7 @@ func init() {
 		ID:      "C05",
 		Level:   "exploration",
 		Workers: 16,
-		Rule: "seeded scenarios over the real service (direct mode): 1-6 MANUALLY clients, 1-3 datatypes out of a pool of keys and types, entry modes create / subscribe / subscribe-or-create, steps {open a datatype (late join), local operation, committed or aborted user transaction (an abort rolls the datatype back to its recorded base and replays), Sync of one client with all its datatypes in one message}; monitors: checkpoint monotonicity after every ApplyPushPullPack, store invariants (C06) after every request, at the end every client syncs to quiescence, then all subscribed clients of a key must equal each other, snapshot.Manager.GetLatestDatatype() and a replay of the stored log; the remote-operation handlers' records give exactly-once / log order / never-own; every fourth scenario runs through the SDK's own Client.Sync() over real grpc with several datatypes per message and shuffled response packs, every second of those with responses lost on the way back (the request was served, Sync() returns an RPC error); " +
+		Rule: "seeded scenarios over the real service (direct mode): 1-6 MANUALLY clients, 1-3 datatypes out of a pool of keys and types, entry modes create / subscribe / subscribe-or-create, steps {open a datatype (late join), local operation, committed or aborted user transaction (an abort rolls the datatype back to its recorded base and replays), Sync of one client with all its datatypes in one message}; monitors: checkpoint monotonicity after every ApplyPushPullPack, store invariants (C06) after every request, at the end every client syncs to quiescence, then all subscribed clients of a key must equal each other, snapshot.Manager.GetLatestDatatype() and a replay of the stored log; the remote-operation handlers' records give exactly-once / log order / never-own; every fourth scenario runs through the SDK's own Client.Sync() over real grpc with several datatypes per message and shuffled response packs, every second of those with responses lost on the way back (the request was served, Sync() returns an RPC error); in a quarter of the scenarios (direct and SDK) database reads inside push-pull handlers fail now and then, so that single packs are aborted by the server while the rest of the message is served; " +
 			"non-trivial = at least two clients pushed to the same datatype between two syncs of a third client; distinct = hash of the step script",
 		Assumptions: []string{
 			"MongoDB and the MQTT broker are the in-memory stand-ins (fakemongo, fakemqtt): faithful for the command subset orda issues",
@@ -209,16 +210,39 @@ func runC05(c *core.Case) *core.Result {
 			defer front.SetFaults(nil, nil)
 		}
 	}
+	if c.Index%4 == 1 || c.Index%8 == 3 {
+		// server-side aborts: now and then a database read inside a push-pull handler fails, so
+		// that ONE pack of a message is answered with an error pack (nothing of it is stored)
+		// while the other packs of the message are served; the client must offer the same
+		// operations again later
+		abortRng := newRand(c.Rng.Int63())
+		var amu sync.Mutex
+		w.b.DB.SetPlan(func(cmd *fakemongo.Cmd) fakemongo.Action {
+			if cmd.Name != "find" || (cmd.Coll != "-_-Datatypes" && cmd.Coll != "-_-Operations") {
+				return fakemongo.Action{}
+			}
+			amu.Lock()
+			defer amu.Unlock()
+			if abortRng.Intn(25) == 0 {
+				c.Count("handler_reads_failed", 1)
+				return fakemongo.Action{Fail: true}
+			}
+			return fakemongo.Action{}
+		})
+		defer w.b.DB.SetPlan(nil)
+	}
 	for i := 0; i < steps; i++ {
 		if sig, msg := s.step(); sig != "" {
 			return verdict(c, "", sig, msg)
 		}
 	}
+	w.b.DB.SetPlan(nil)
 	if sdk {
 		if front, err := w.b.Front(); err == nil {
 			front.SetFaults(nil, nil)
 		}
 	}
+	errsBeforeSettle := w.errPacks + w.rpcErrs
 	// make sure every planned creator exists so that subscribers can complete
 	ok, sig, msg := w.settle(8)
 	if sig != "" {
@@ -227,8 +251,8 @@ func runC05(c *core.Case) *core.Result {
 	if !ok {
 		// not settled: legal only if error replies kept some client from progressing
 		c.Count("not_settled", 1)
-		if w.errPacks+w.rpcErrs == 0 {
-			return c.Violation("no-quiescence", "after 8 rounds of syncing every client something is still left to push or pull although the server never answered with an error")
+		if w.errPacks+w.rpcErrs == errsBeforeSettle {
+			return c.Violation("no-quiescence", "after 8 fault-free rounds of syncing every client something is still left to push or pull although the server answered none of those syncs with an error")
 		}
 		return c.Held()
 	}
